@@ -37,11 +37,14 @@ def rdEq (a b : Rd) : Bool :=
   else if a.rel != b.rel then false
   else a.dig == b.dig
 
+/-- `if our == their: 0 elif our > their: 1 else: -1` on `bytes` -/
+def digCmp (x y : Bytes) : Int :=
+  if x = y then 0 else if cmpBytes x y > 0 then 1 else -1
+
 /-- `Rdata._cmp` as coded, `_allow_relative_comparisons = True` (callers have checked class and type) -/
 def rdCmp (a b : Rd) : Int :=
   if a.rel != b.rel then (if a.rel then -1 else 1)
-  else if a.dig = b.dig then 0
-  else if cmpBytes a.dig b.dig > 0 then 1 else -1
+  else digCmp a.dig b.dig
 
 /-- `Rdata.__hash__` = `hash(self.to_digestable(root))`; Python's `hash` on bytes is a parameter -/
 def rdHash (H : Bytes → Nat) (a : Rd) : Nat := H a.dig
